@@ -509,6 +509,18 @@ func (e *episode) settle(d core.Duty, before snapshot, n int) {
 	})
 }
 
+// awaitRunStart: Propose / Participate return as soon as they have launched `go runInstance`; that goroutine fetches the
+// instance IO first and only then asks the deadliner. An op that follows immediately (expire: deleteInstanceIO) could
+// overtake it on a loaded machine — the goroutine would then re-create the IO it was started for and the instance count
+// would differ from the model's (seen once in a thorough sweep under load). The op therefore ends only when the launched
+// run has reached the deadliner (entered qbft.Run or skipped).
+func (e *episode) awaitRunStart(d core.Duty) {
+	if ex, _, _, r, _ := e.cons.InstanceFlagsVerif(d); !ex || !r {
+		return
+	}
+	e.waitFor(func() bool { return e.dl.entered[d]+e.dl.skipped[d] >= 1 })
+}
+
 func (e *episode) mkMsg(d core.Duty, v int, kind string) *pbv1.QBFTConsensusMsg {
 	val := valueProto(d, v)
 	h, err := cqbft.HashProtoVerif(val)
@@ -570,6 +582,7 @@ func (e *episode) exec(op string, participateEnabled bool) string {
 		}
 		e.goCall("P", d, v, nil)
 		e.settle(d, before, 1)
+		e.awaitRunStart(d)
 	case "participate":
 		e.setDL(d, f[3])
 		eff := participateEnabled && d.Type != core.DutyAggregator && d.Type != core.DutySyncContribution
@@ -578,6 +591,7 @@ func (e *episode) exec(op string, participateEnabled bool) string {
 		}
 		e.goCall("Q", d, 0, nil)
 		e.settle(d, before, 1)
+		e.awaitRunStart(d)
 	case "msg":
 		v, _ := strconv.Atoi(f[3])
 		e.setDL(d, f[5])
